@@ -41,6 +41,9 @@ REPO = Path(os.environ.get("MDPAX_REPO", "/repo"))
 PY = os.environ.get("MDPAX_PY", "/venv/bin/python")
 DEPS = ROOT / ".deps"
 N_CORES = int(os.environ.get("VERIF_JOBS", "16"))
+# self-mutation runs (tools/mutate.sh) point these elsewhere so they never touch committed evidence
+EVID_DIR = Path(os.environ.get("VERIF_EVIDENCE_DIR", str(ROOT / "evidence")))
+REPLAY_DIR = Path(os.environ.get("VERIF_REPLAY_DIR", str(ROOT / "replays")))
 GUARD = "MDPAX_VERIF"
 
 
@@ -257,8 +260,8 @@ def finish(prop: str, mod, tier: str, seed: int, cases: list, records: list, t0:
     # the schema wants >=1 evaluation and >=2 distinct classes; when a run could not
     # deliver that it is inconclusive and the evidence must say so rather than pretend
     if not replay_mode:
-        (ROOT / "evidence").mkdir(exist_ok=True)
-        (ROOT / "evidence" / f"{prop}.json").write_text(json.dumps(ev, indent=1, default=str))
+        EVID_DIR.mkdir(parents=True, exist_ok=True)
+        (EVID_DIR / f"{prop}.json").write_text(json.dumps(ev, indent=1, default=str))
 
     for key, n in sorted(known_hits.items()):
         print(f"KNOWN-FINDING: property={prop} key={key} {known_listed[key]} ({n} case(s) this run)")
@@ -269,12 +272,12 @@ def finish(prop: str, mod, tier: str, seed: int, cases: list, records: list, t0:
         print(f"[{prop}] skipped: {dict(skips)}")
 
     if violations:
-        (ROOT / "replays").mkdir(exist_ok=True)
+        REPLAY_DIR.mkdir(parents=True, exist_ok=True)
         seen = set()
         for r in violations[:10]:
             case = by_id.get(r["case_id"], {})
             payload = {"property": prop, "tier": tier, "seed": seed, "case": case, "record": r}
-            path = ROOT / "replays" / f"{prop}-{_digest(case)}.json"
+            path = REPLAY_DIR / f"{prop}-{_digest(case)}.json"
             if path in seen:
                 continue
             seen.add(path)
